@@ -15,11 +15,14 @@ RULE = ('inputs of 12 queries of classes partial/chimeric/indel/noisy (about hal
         'with >= 1 joined record or >= 1 join candidate rejected; distinct by content hash of the four main files.')
 ASSUMPTIONS = ['joined != union with a valid union is classified from the parts\' segments (writer rows): when every '
                'missing pair belongs to a segment other than segments[0] of its part it is the listed finding '
-               'join-first-segments-only', 'XmapEntryID is excluded from comparisons (running count)']
+               'join-first-segments-only; when the two parts overlap on the reference or query axis and every missing pair '
+               'lies inside the overlapping stretch it is the listed finding join-overlap-resolved-by-trimming',
+               'XmapEntryID is excluded from comparisons (running count)']
 MINIMUMS = {'inputs': {'quick': 100, 'thorough': 1500}, 'joined-records': {'quick': 100, 'thorough': 1500},
             'second-pass-records': {'quick': 400, 'thorough': 6000}, 'union-valid-joins': {'quick': 50, 'thorough': 800},
             'join-candidates-rejected-by-gap': {'quick': 10, 'thorough': 150}}
 KF = 'join-first-segments-only'
+KF2 = 'join-overlap-resolved-by-trimming'
 
 
 def plan(tier, seed):
@@ -130,6 +133,17 @@ def judge(case, wd, sh):
                     later = set(p for x in fs[1:] for p in x) | set(p for x in ss[1:] for p in x)
                     if missing and missing <= later:
                         key = KF
+                if key != KF and missing:
+                    # the two parts overlap (the later one starts before the earlier one ends) and every missing pair lies
+                    # inside that stretch: the join resolved the overlap by trimming one side, as conflict resolution does
+                    A, B = (f, s) if f['aln'][0][0] <= s['aln'][0][0] else (s, f)
+                    r_lo, r_hi = B['aln'][0][0], A['aln'][-1][0]
+                    qa, qb = A['aln'][-1][1], B['aln'][0][1]
+                    q_lo, q_hi = (qb, qa) if f['ori'] == '+' else (qa, qb)
+                    in_ref = r_lo <= r_hi and all(r_lo <= r <= r_hi for r, _ in missing)
+                    in_q = q_lo <= q_hi and all(q_lo <= qq <= q_hi for _, qq in missing)
+                    if in_ref or in_q:
+                        key = KF2
                 viol.append((key, 'query %s (%s): the union of its first- and second-pass pairs is a valid matching of %d pairs but the joined record has %d; missing %s' % (
                     q, f['ori'], len(union), len(j['aln']), sorted(missing)[:8]), focus))
         else:
